@@ -205,6 +205,8 @@ def replay_C10(w, clause):
     except Exception as e:
         return {"reproduced": True, "sig": {"kind": "internal_error", **_exc_sig(e)},
                 "detail": f"{w['class']} on bytes {data[:48].hex()} raised {type(e).__name__}: {e}"}
+    if buf.tell() > len(data):
+        return {"reproduced": True, "sig": {"kind": "consumed_more_than_given"}, "detail": f"{w['class']}: decoding {len(data)} bytes left the source position at {buf.tell()}"}
     if clause == "array_item_consumes_at_least_one_byte":
         if buf.tell() == 0:
             return {"reproduced": True, "sig": {"kind": "zero_width_array_item"}, "detail": f"{w['class']} decodes from zero bytes and is used as an array item"}
@@ -344,6 +346,25 @@ def replay_C07(w, clause):
         outs.append(bytes(s.data))
     if outs[0] != outs[1]:
         return {"reproduced": True, "sig": {"kind": "bytes_depend_on_sink_kind"}, "detail": "bytes differ between a sink whose write returns a count and one returning None"}
+
+    class KeepsReferences:
+        """a gather-style sink: queues what it is handed without copying (as an asyncio transport may)"""
+
+        def __init__(self):
+            self.chunks = []
+
+        def write(self, b):
+            self.chunks.append(b)
+
+    ks = KeepsReferences()
+    ks.write(lead)
+    for h, x in msgs:
+        entity_writer(hcls)(ks, h)
+        entity_writer(cls)(ks, x)
+    ks.write(trail)
+    if b"".join(bytes(c) for c in ks.chunks) != outs[0]:
+        return {"reproduced": True, "sig": {"kind": "bytes_depend_on_sink_kind", "sink": "keeps references to the written buffers"},
+                "detail": f"{w['class']}: a sink that queues the objects passed to write() ends up with different bytes than io.BytesIO (a written buffer is reused)"}
     r = ReadOnly(outs[0])
     r.read(len(lead))
     try:
@@ -370,8 +391,14 @@ def replay_C19(w, clause):
     from .props import c19
 
     cls = shapes.class_by_id(w["class"])
+    if w.get("order"):
+        differing, n, detail = c19.order_dependence()
+        if w["class"] in differing:
+            return {"reproduced": True, "sig": {"kind": "depends_on_creation_order"},
+                    "detail": f"{w['class']}: encoding/decoding/closure structure differs when all readers and writers are created in forward vs reverse class order: {detail.get(w['class'])}"}
+        return {"reproduced": False, "detail": "same behaviour in both creation orders"}
     if "finite" in w:
-        others = shapes.signature_representatives(shapes.all_entity_classes())[:25]
+        others = []
         fin = c19.finite_checks(cls, {}, others)
         ok = fin.get(w["finite"], True)
         return {"reproduced": not ok, "sig": {"kind": "finite", "which": w["finite"]}, "detail": f"{w['class']}: {w['finite']} = {ok}"}
@@ -537,6 +564,15 @@ def replay_C15(w, clause):
     import dataclasses as _dc
 
     from . import shapes
+
+    if "facts" in w:
+        from .props import c15
+
+        q = c15.rules()[0]
+        for name, ok, detail in q.results:
+            if name == w["facts"]:
+                return {"reproduced": ok is False, "sig": {"kind": "facts", "rule": name}, "detail": f"{name}: {detail}"}
+        return {"reproduced": None, "error": "unknown facts rule"}
 
     a, b = shapes.from_jsonable(w["a"]), shapes.from_jsonable(w["b"])
 
